@@ -314,7 +314,7 @@ def hostile_config(rng):
         thou = rng.choice([',', '.', '', ' ', '..', "'", '0', dec])
     digits = rng.choice([0, 1, 2, 2, 2, 3, 4, 5, 6, 7, 8, 9, 9, 10, 19, 20, 255])
     tz = rng.choice(['UTC', 'UTC', 'UTC', 'EST', 'CET', 'IST', 'GMT+5:30', 'GMT-11', 'NZDT', 'CHADT', 'GMT+14', 'PST'])
-    return {'dec': dec, 'thou': thou, 'digits': digits, 'rm': rng.random() < 0.5, 'round': rng.random() < 0.8, 'tz': tz}
+    return {'dec': dec, 'thou': thou, 'digits': digits, 'rm': rng.random() < 0.5, 'round': rng.random() < 0.8, 'tz': tz, 'noise': rng.random() < 0.25}
 
 
 def BUILTIN_FAMILIES():
